@@ -37,6 +37,8 @@ func (b *Batch) add(m M) {
 	if err != nil {
 		panic(err)
 	}
+	// the TLC Json module cannot represent null
+	j = bytes.ReplaceAll(j, []byte(":null"), []byte(`:"null"`))
 	b.lines = append(b.lines, j)
 }
 
